@@ -140,3 +140,12 @@ func (l *Layout) ProvidesList() []string {
 	sort.Strings(out)
 	return out
 }
+
+// SharedMap renders the additional owners with string keys (JSON friendly).
+func (l *Layout) SharedMap() map[string][]int {
+	out := map[string][]int{}
+	for r, v := range l.Shared {
+		out[r.String()] = v
+	}
+	return out
+}
